@@ -73,14 +73,16 @@ def _bits(draw, n, p10):
 
 
 @st.composite
-def _case(draw):
-    comp = draw(st.sampled_from(["SAW", "SAW", "SAW", "IET"]))
+def _case(draw, force_comp=None, force_klass=None):
+    comp = force_comp or draw(st.sampled_from(["SAW", "SAW", "SAW", "IET"]))
     zone = draw(st.integers(0, 99))
     klass = "regular"
     if zone < 3:
         klass = "zero_pairs"
     elif zone < (6 if comp == "SAW" else 25):
         klass = "empty_row"
+    if force_klass:
+        klass = force_klass
     n = draw(st.integers(2, 8))
     d = draw(st.integers(1, 2))
     na = draw(st.sampled_from([1, 2, 2, 3, 3, 4]))
